@@ -10,9 +10,13 @@
     else delays → sleep min(delays) (capped by WAITING_KEEPALIVE_INTERVAL) → the touch-dummy PATCH,
     its echo is the next watch event; else nothing: no event is pending, the loop is quiescent.
     A marked object whose own finalizer is removed (and no foreign finalizer holds it) is gone.
-    An object no handler's filters accept ("blind", repo fix 423b86f) and an object in deletion that only
-    somebody else's finalizer holds (cause FREE, repo fix 40d09eb) get no handlers, but the leftover progress
-    records PRESENT on them are purged (`purgeTurn`: one PATCH, its echo finds nothing to purge).
+    An object in deletion that only somebody else's finalizer holds (cause FREE, repo fix 40d09eb) gets no handlers,
+    but the leftover progress records PRESENT on it are purged (`purgeTurn`: one PATCH, its echo finds nothing to
+    purge). An object no handler's filters accept ("blind") is not written to at all (`blindTurn`; repo fix 423b86f
+    had purged its leftovers too, ad4ec08 took that back: the records are recognised by handler id and prefix only,
+    which every deployment of the same operator code shares — C15-F9): whatever records it carries stay.
+    One id registered for several causes (stacked decorators): the handler declared for the current reason does not
+    inherit the progress its namesake recorded for another cause (repo fix f7d6401: `vis`, `Env.boundH`).
 
   The per-object worker is sequential (`queueing.worker`) and, while nobody else writes, every event
   it receives is the echo of its own last PATCH: so the closed loop of one object is a *function*
@@ -49,6 +53,10 @@ structure Env where
   subs : List Id                       -- ids of sub-handlers that may carry records (a PATCH can purge them)
   sel : C05.Cause → List Id            -- `get_handlers(cause)`: gate + filters
   initialH : Id → Bool                 -- `handler.initial`: a resuming handler (`@kopf.on.resume`)
+  boundH : C05.Cause → Id → Bool       -- `handler.reason is not None` of the handler selected under this id for the cause:
+                                       -- declared for this very reason (on.create / on.update / on.delete), as opposed to
+                                       -- the mix-in handlers (resuming, field). One id may stand for several registrations
+                                       -- (stacked decorators on one function): they share ONE progress record
   limits : Id → C02.Limits
   lifecycle : C02.Lifecycle
   exec : Id → Nat → C02.Outcome        -- what invoking handler `i` with `retry = n` yields
@@ -101,9 +109,18 @@ def cfgOf (env : Env) (s : State E) : C02.Cfg :=
   { owned := env.owned, selected := selOf env s, limits := env.limits,
     reason := C14.reasonStr (causeOf s).reason, lifecycle := env.lifecycle }
 
-/-- the handling pass of this event (handlers are instantaneous: both clock readings coincide) -/
+/-- The records the handling pass takes over (repo fix f7d6401, formerly finding C03-N3): for a handler reason, the record
+    of a selected handler that is declared for this very reason but carries ANOTHER cause's purpose is its namesake's
+    (one id registered for several causes) and is left out — that handler starts from scratch. Everything else, and
+    everything for an informational cause, is taken as it is. -/
+def vis (env : Env) (s : State E) : C02.Store :=
+  C02.taken (cfgOf env s) (env.boundH (causeOf s)) s.P
+
+/-- the handling pass of this event (handlers are instantaneous: both clock readings coincide): `process_changing_cause`
+    as of f7d6401, `C02.cycleB (cfgOf env s) (env.boundH (causeOf s)) s.P …` — which IS C02's `cycle` over the records
+    taken over (`Kopf.C02.cycleB_eq_cycle_taken`; stated for this loop as `Kopf.C03.pass_is_cycleB`) -/
 def pass (env : Env) (s : State E) : C02.CycleResult :=
-  C02.cycle (cfgOf env s) s.P s.now s.now env.exec
+  C02.cycle (cfgOf env s) (vis env s) s.now s.now env.exec
 
 /-- `min(delays) if delays else None` -/
 def minDelay : List Tick → Option Tick
@@ -153,7 +170,7 @@ def changedOf (env : Env) (s : State E) : Bool :=
     are added; the set is dropped when the cycle closes -/
 def resumedAfter (env : Env) (s : State E) : List Id :=
   if (pass env s).closed then []
-  else s.resumed ++ (selOf env s).filter (fun i => env.initialH i && unfin s.P i && !unfin (pass env s).P' i)
+  else s.resumed ++ (selOf env s).filter (fun i => env.initialH i && unfin (vis env s) i && !unfin (pass env s).P' i)
 
 /-- the state after a turn that ran the handling pass -/
 def nextState (env : Env) (s : State E) (now' : Tick) (pend : Bool) (w : Nat) : State E :=
@@ -184,27 +201,25 @@ def releaseTurn (env : Env) (s : State E) : State E :=
       (s.writes + (if changedOf env s then 2 else cp env + 1)) with
     blocked := false, gone := !env.foreignFins }
 
-/-- A turn without handlers on an object the framework is blind to (no changing handler's filters accept it; repo fix
-    423b86f) or on an object in deletion that the own finalizer does not hold and somebody else's does (cause FREE; repo
-    fix 40d09eb): the leftover records present on the object are purged — one PATCH that changes the object, its echo
-    is the next event and finds nothing to purge; with nothing to purge nothing is written (but the constant part of
-    the patch) and no event follows. The last-handled state is left alone. -/
+/-- A turn without handlers on an object in deletion that the own finalizer does not hold and somebody else's does (cause
+    FREE; repo fix 40d09eb): the leftover records present on the object are purged — one PATCH that changes the object,
+    its echo is the next event and finds nothing to purge; with nothing to purge nothing is written (but the constant
+    part of the patch) and no event follows. The last-handled state is left alone. -/
 def purgeTurn (env : Env) (s : State E) : State E :=
   if leftovers env s then
     { s with P := purged env s, now := s.now + env.lat, pending := true, writes := s.writes + 1 }
   else { s with pending := false, writes := s.writes + cp env }
 
+/-- A turn on an object the framework is BLIND to (no changing handler's filters accept it): "be blind to it, store no
+    state" — nothing is read, nothing is written (but the constant part of the patch), no event follows; whatever
+    progress records and last-handled state the object carries stay (as before repo fix 423b86f, again since ad4ec08). -/
+def blindTurn (env : Env) (s : State E) : State E :=
+  { s with pending := false, writes := s.writes + cp env }
+
 /-- The turn that removes the finalizer nobody needs ("Removing the finalizer, as there are no handlers requiring
-    it"): no handlers this turn. On a blind object the purge of leftovers (423b86f) precedes the finalizer block of
-    `process_resource_causes` and goes out in the same `apply`: merge-patch (purge) + JSON-patch (finalizer), two
-    requests. (NOT modelled: the echo of the merge half is processed as a cycle of its own, blind and still blocked,
-    whose finalizer JSON-patch is rejected with HTTP 422 — one wasted request, C06/C08's subject.) -/
+    it"): no handlers this turn, the records are left alone (also on a blind object: ad4ec08). -/
 def remState (env : Env) (s : State E) (g : Bool) : State E :=
-  { s with P := (if !env.prematch && leftovers env s then purged env s else s.P),
-           blocked := false, gone := g,
-           now := s.now + (if !env.prematch && leftovers env s then env.rtt + env.lat else latS env),
-           pending := !g,
-           writes := s.writes + (if !env.prematch && leftovers env s then 2 else cp env + 1) }
+  { s with blocked := false, gone := g, now := s.now + latS env, pending := !g, writes := s.writes + cp env + 1 }
 
 /-- One turn of the closed loop: consume the pending event, process it, `apply`. -/
 def loopStep (env : Env) (s : State E) : State E :=
@@ -218,7 +233,7 @@ def loopStep (env : Env) (s : State E) : State E :=
     else if d.removeUnneeded then
       -- "Removing the finalizer, as there are no handlers requiring it": no handlers this turn
       remState env s (s.marked && !env.foreignFins)
-    else if !d.handlersRun then purgeTurn env s          -- "be blind to it, store no state": leftovers included
+    else if !d.handlersRun then blindTurn env s          -- "be blind to it, store no state"
     else if d.release then releaseTurn env s
     else if (causeOf s).reason = .free then purgeTurn env s   -- "Deletion, but we are done with it": leftovers purged
     else handleTurn env s
@@ -347,24 +362,26 @@ def isHandler (s : State E) : Bool := C02.handlerReasons.contains (C14.reasonStr
 
 /-- `state.extras` is non-empty: some stored record carries a superseded purpose -/
 def extrasOf (env : Env) (s : State E) : Bool :=
-  C02.hasExtras (C02.withHandlers (C02.fromStorage s.P env.owned) (selOf env s)
+  C02.hasExtras (C02.withHandlers (C02.fromStorage (vis env s) env.owned) (selOf env s)
     (C14.reasonStr (causeOf s).reason) s.now) (C02.known (cfgOf env s)) (C14.reasonStr (causeOf s).reason)
 
 /-- this turn only adjusts the finalizer (adds it, or removes the one nobody needs) -/
 def adjusting (env : Env) (s : State E) : Bool :=
   (decisionOf env s).add || (decisionOf env s).removeUnneeded
 
-/-- turns still needed by the handling proper:
+/-- turns still needed by the handling proper (all over the records TAKEN OVER, `vis`: a handler whose id carries only
+    its namesake's record counts as unfinished and due):
     2·(selected handlers still unfinished) + (1 if none of them is due now) + (1 if superseded records
     are still to be re-purposed) + 1 (the echo of the closing PATCH) + the keepalive rounds of delays
-    longer than the cap; for an informational cause, a blind or a FREE object 1, or 2 if leftover records are
-    purged first. -/
+    longer than the cap; for a blind object 1; for an informational cause or a FREE object 1, or 2 if leftover
+    records are purged first. -/
 def core (env : Env) (s : State E) : Nat :=
-  if !env.prematch || decide ((causeOf s).reason = .free) then (if leftovers env s then 2 else 1)
+  if !env.prematch then 1
+  else if decide ((causeOf s).reason = .free) then (if leftovers env s then 2 else 1)
   else if !isHandler s then (if changedOf env s then 2 else 1)
-  else 2 * Uv (selOf env s) s.P + Av (selOf env s) s.P s.now
+  else 2 * Uv (selOf env s) (vis env s) + Av (selOf env s) (vis env s) s.now
        + (if extrasOf env s then 1 else 0) + 1
-       + Cv env.cap (selOf env s) s.P s.now
+       + Cv env.cap (selOf env s) (vis env s) s.now
 
 /-- Upper bound on the number of further turns of the loop. A function of the state only. -/
 def bound (env : Env) (s : State E) : Nat :=
@@ -442,10 +459,10 @@ def loopStepI (env : Env) (nonEmpty : Bool) (dl : Tick) (s : State E) : State E 
     { s with now := s.now + waitOf env dl s + latS env, pending := true, writes := s.writes + cp env + 1 }
   else loopStep env { s with now := if s.now < dl then dl else s.now }
 
-/-! ### the turns as they were BEFORE the repairs 423b86f, 40d09eb, 608a57d + 02af7ce, 30557a0 (for the regression theorems) -/
+/-! ### the turns as they were BEFORE the repairs 40d09eb, 608a57d + 02af7ce, 30557a0 (for the regression theorems) -/
 
-/-- `loopStep` before 423b86f / 40d09eb: a blind object is left alone (whatever records it carries), and so is a FREE
-    one (C02's `cycle` purges for the reason "noop" only). -/
+/-- `loopStep` before 40d09eb: a FREE object is left alone, whatever records it carries (C02's `cycle` purges for the
+    reason "noop" only) — like a blind one. -/
 def loopStepOld (env : Env) (s : State E) : State E :=
   if !s.pending then s
   else if s.gone then { s with pending := false }
@@ -495,7 +512,7 @@ def stateN : State Nat :=
     of the state: outside the guard `FiltersStable`. -/
 def envOfU (s : State Nat) : Env :=
   { owned := ["d0"], subs := [], sel := fun c => if c.reason = .delete then ["d0"] else [],
-    initialH := fun _ => false,
+    initialH := fun _ => false, boundH := fun _ _ => true,
     limits := fun _ => ⟨none, none⟩, lifecycle := .asap, exec := fun _ _ => okOutcome,
     prematch := !s.blocked, changeReq := !s.blocked, foreignFins := false, constPatch := false,
     lat := 1, rtt := 1, cap := 38400 }
